@@ -59,6 +59,31 @@ def conc_cfg(r):
     return cfg, scopes
 
 
+def bait_cfgs():
+    """shapes the scope rule exists for: a service declared shared that reaches a contextual one only through a tag / a decorator /
+    a chain of default-scope services.  The documented build rejects them; whatever the build accepts is run concurrently, and a
+    contextual instance seen from two contexts is reported."""
+    out = []
+    base = {"meta": {"functions": {"fa": "GetEnv", "fb": "Lookup", "fc": "Fn"}}, "parameters": {"pa": "%fa(\"a\")%", "pb": "%fb(\"b\")%", "pc": "%fc(\"c\")%"}}
+    tx = {"constructor": "NewB", "scope": "contextual", "getter": "GetTx", "type": "*T"}
+    def mk(svcs, decs=None):
+        c = json.loads(json.dumps(base))
+        c["services"] = svcs
+        if decs:
+            c["decorators"] = decs
+        return c
+    out.append(mk({"tx": tx, "repo": {"constructor": "NewA", "scope": "shared", "tags": ["tg"], "getter": "GetRepo", "type": "*T"}},
+                  [{"tag": "tg", "decorator": "Decorate", "arguments": ["@tx"]}]))
+    out.append(mk({"tx": tx, "repo": {"constructor": "NewA", "scope": "shared", "tags": ["tg"], "getter": "GetRepo", "type": "*T", "fields": {"Name": "%pa%"}}},
+                  [{"tag": "tg", "decorator": "Decorate", "arguments": ["@tx"]}]))
+    out.append(mk({"tx": dict(tx, tags=["tg"]), "repo": {"constructor": "NewA", "scope": "shared", "arguments": ["!tagged tg"], "getter": "GetRepo", "type": "*T"}}))
+    out.append(mk({"tx": tx, "mid": {"constructor": "MakeC", "arguments": ["@tx"], "getter": "GetMid", "type": "*T"},
+                   "repo": {"constructor": "NewA", "scope": "shared", "arguments": ["@mid"], "getter": "GetRepo", "type": "*T"}}))
+    out.append(mk({"tx": tx, "repo": {"constructor": "NewA", "scope": "shared", "fields": {"Dep": "@tx"}, "getter": "GetRepo", "type": "*T"}}))
+    out.append(mk({"tx": tx, "repo": {"constructor": "NewA", "scope": "shared", "calls": [["SetX", ["@tx"]]], "getter": "GetRepo", "type": "*T"}}))
+    return out
+
+
 def run(tier, seed, replay):
     out, tooldir, env = common.setup("C20", tier, seed)
     common.proof_part(out, env, "C20")
@@ -73,6 +98,14 @@ def run(tier, seed, replay):
         sp["what"] = ["concurrent"]
         specs.append(sp)
         metas.append(scopes)
+    nbait = 0
+    for cfg in bait_cfgs():
+        sp = common.mk_spec(len(specs), [cfg], keep_out=True)
+        sp["cfg"] = cfg
+        sp["what"] = ["scope-bait"]
+        specs.append(sp)
+        metas.append({n: (sv.get("scope"), sv.get("constructor")) for n, sv in cfg["services"].items()})
+        nbait += 1
     obs = build.gx_run(tooldir, specs)
     common.real_sanity(out, specs, obs, "C20")
     common.correspondence(out, env, specs, obs, "C20 front end")
@@ -94,7 +127,10 @@ def run(tier, seed, replay):
         names = {}
         for k, (sp, ob) in enumerate(zip(specs, obs)):
             if ob.get("exit") != 0:
-                out.broke("harness: C20 configuration rejected", {"errors": ob.get("errors"), "files": sp["files"]})
+                if sp["what"] == ["scope-bait"]:
+                    dist["bait_rejected_as_documented"] = dist.get("bait_rejected_as_documented", 0) + 1
+                else:
+                    out.broke("harness: C20 configuration rejected", {"errors": ob.get("errors"), "files": sp["files"]})
                 continue
             src = ob["out_content"]
             ctor = re.search(r"^func (\w+)\(\) \(rootGontainer \*", src, re.M).group(1)
@@ -118,6 +154,7 @@ def run(tier, seed, replay):
             opsf = os.path.join(b.dir, name + ".ops.json")
             json.dump(hists[k], open(opsf, "w"))
             cfg = specs[k]["cfg"]
+            inv = {}
             for rr in range(runs):
                 q = subprocess.run([binp, opsf, "concurrent", "24", "2", str(seed * 100 + rr)], env=penv, stdout=subprocess.PIPE, stderr=subprocess.PIPE, text=True, timeout=300)
                 dist["runs"] += 1
@@ -145,6 +182,19 @@ def run(tier, seed, replay):
                         out.violation("param-evaluated-twice", "parameter function %s ran %d times: a parameter was evaluated more than once" % (fn, inv[fn]), rep)
                 # contextual services: the instances one goroutine (= one context) sees via getctx are its own
                 owner = {}
+                # nested instances: an object of a contextual service (identified by its own constructor) reachable from what one
+                # context obtained must not be reachable from what another context obtained
+                ctx_ctors = {c: s for s, (sc, c) in metas[k].items() if sc == "contextual" and c and sum(1 for _, (_, c2) in metas[k].items() if c2 == c) == 1}
+                nested_owner = {}
+                for g in lines[1:]:
+                    for o in g["obs"]:
+                        for item in o.get("inner") or []:
+                            origin, _, ser = item.rpartition("#")
+                            cname = origin.rsplit(".", 1)[-1]
+                            if cname in ctx_ctors:
+                                if item in nested_owner and nested_owner[item] != g["g"]:
+                                    out.violation("contextual-shared-between-contexts", "contextual service %s: instance %s is reachable from objects handed to two different contexts (via %s)" % (ctx_ctors[cname], item, o["name"]), rep)
+                                nested_owner[item] = g["g"]
                 for g in lines[1:]:
                     for o in g["obs"]:
                         if o["op"] == "getctx" and o["serial"] not in ("", "0"):
